@@ -2,29 +2,29 @@
 from vx.unit import Unit
 from vx.extract import C
 
-PROPS = ['C03', 'C01']
+PROPS = ['C03', 'C06', 'C01']
 HEADER = 'use vstd::prelude::*;\nverus! {\n'
 FOOTER = '\n} // verus!\nfn main() {}\n'
 
 
 def build(repo, findings):
-    u = Unit('U3b', 'nounset tolerance flag threading in parameter expansion', repo, ['C03'], safety_props=['C01', 'C03'])
+    u = Unit('U3b', 'nounset tolerance flag threading in parameter expansion', repo, ['C03', 'C06'], safety_props=['C01', 'C03'])
     ex = u.source('brush-core/src/expansion.rs')
     u.raw(HEADER)
     u.prelude('errexit/param_spec.rs')
     u.raw('impl WordExpander {')
     f = ex.method_anywhere('expand_parameter_internal').r1().r3().r11()
     f.sig('expand_parameter_internal', ret='res', ensures=[
-        C('C03 tolerance-flag-reaches-every-lookup', 'all_with_flag(old(self).lookups(), final(self).lookups(), allow_unset_vars)'),
+        C('C03,C06 tolerance-flag-reaches-every-lookup', 'all_with_flag(old(self).lookups(), final(self).lookups(), allow_unset_vars)'),
         C('C03 direct-expansion-is-one-lookup', '!indirect ==> final(self).lookups() == old(self).lookups().push((*parameter, allow_unset_vars))'),
         C('C03 indirect-expansion-looks-up-twice', '(indirect && res is Ok) ==> final(self).lookups().len() == old(self).lookups().len() + 2 && final(self).lookups()[old(self).lookups().len() as int].0 == *parameter'),
     ])
     u.add(f)
     g = ex.method_anywhere('expand_parameter').r1().r3().r11()
-    g.sig('expand_parameter', ret='res', ensures=[C('C03 plain-expansion-does-not-tolerate-unset', 'all_with_flag(old(self).lookups(), final(self).lookups(), false)')])
+    g.sig('expand_parameter', ret='res', ensures=[C('C03,C06 plain-expansion-does-not-tolerate-unset', 'all_with_flag(old(self).lookups(), final(self).lookups(), false)')])
     u.add(g)
     h = ex.method_anywhere('expand_parameter_allowing_unset').r1().r3().r11()
-    h.sig('expand_parameter_allowing_unset', ret='res', ensures=[C('C03 tolerant-operators-tolerate-unset', 'all_with_flag(old(self).lookups(), final(self).lookups(), true)')])
+    h.sig('expand_parameter_allowing_unset', ret='res', ensures=[C('C03,C06 tolerant-operators-tolerate-unset', 'all_with_flag(old(self).lookups(), final(self).lookups(), true)')])
     u.add(h)
     u.raw('}\n')
     u.raw(FOOTER)
